@@ -66,6 +66,8 @@ struct OpState {
     caused: bool,
     /// a sender (waits for writability) instead of a receiver
     dir_w: bool,
+    /// the harness received this operation's result
+    delivered: bool,
 }
 
 #[derive(Clone, Debug, PartialEq)]
@@ -108,17 +110,28 @@ fn ensure_channel(ctx: &mut Ctx, pid: u64, is_poll: bool, fd_has_writer: &dyn Fn
     });
 }
 
-/// a read returned `data`: it must be exactly the oldest unread bytes the harness wrote into that pipe
-fn take_pending(pipes: &mut HashMap<u64, PipeState>, pid: u64, data: &[u8]) -> bool {
+/// a read returned `data`: it must be the oldest bytes the harness wrote into that pipe which no other read has
+/// returned. Bytes may be skipped only if another read on the same pipe completed and its result was thrown
+/// away (key dropped / cancelled after completion): `discardable` = capacity of such reads.
+fn take_pending(pipes: &mut HashMap<u64, PipeState>, pid: u64, data: &[u8], discardable: usize) -> bool {
     let Some(ps) = pipes.get_mut(&pid) else { return false };
     if data.is_empty() || data.len() > ps.pending.len() {
         return false;
     }
-    let ok = ps.pending.iter().take(data.len()).copied().eq(data.iter().copied());
-    if ok {
-        ps.pending.drain(..data.len());
+    let pend: Vec<u8> = ps.pending.iter().copied().collect();
+    for skip in 0..=discardable.min(pend.len() - data.len()) {
+        if pend[skip..skip + data.len()] == *data {
+            ps.pending.drain(..skip + data.len());
+            return true;
+        }
     }
-    ok
+    false
+}
+
+/// bytes that reads on pipe `pid` other than `me` may have consumed without the harness ever seeing them:
+/// completed (or released) operations whose key the schedule gave away
+fn discardable_on(ctx: &Ctx, pid: u64, me: usize) -> usize {
+    ctx.ops.iter().enumerate().filter(|(i, o)| *i != me && o.kind == "single" && !o.dir_w && o.pipe == pid && o.ptr != 0 && o.key.is_none() && !o.delivered).count() * 8
 }
 
 /// The driver-level API does not set the buffer length (the runtime layer does): look at the memory.
@@ -219,6 +232,7 @@ impl Ctx {
                             o.cancel_dropped = false;
                         }
                         "result" | "free" => o.completed = true,
+                        "hready" => o.delivered = true,
                         "cancelreq" if a == 1 => o.cancel_dropped = true,
                         _ => {}
                     }
@@ -370,6 +384,7 @@ fn run_case(case: &Value, rep: &mut Report, trace_out: &mut Vec<String>, settle_
                 completed: false,
                 caused: false,
                 dir_w: false,
+                delivered: false,
             })
             .collect(),
         ptr2op: HashMap::new(),
@@ -614,6 +629,7 @@ fn run_case(case: &Value, rep: &mut Report, trace_out: &mut Vec<String>, settle_
                 let key = ctx.ops[oi].key.take().expect("harness: pop without key");
                 let cancel_req = ctx.ops[oi].cancel_requested;
                 let pid = ctx.ops[oi].pipe;
+                let discardable = discardable_on(&ctx, pid, oi);
                 let back = match key {
                     AnyKey::Read(k) => match d.pop(k) {
                         PushEntry::Pending(k) => Some(AnyKey::Read(k)),
@@ -622,7 +638,7 @@ fn run_case(case: &Value, rep: &mut Report, trace_out: &mut Vec<String>, settle_
                             let mut buf = op.into_inner();
                             buf.taken = true;
                             let ok = match &res {
-                                Ok(n) => take_pending(&mut ctx.pipes, pid, &raw_prefix(&buf, *n)),
+                                Ok(n) => take_pending(&mut ctx.pipes, pid, &raw_prefix(&buf, *n), discardable),
                                 Err(e) => cancel_req && e.raw_os_error() == Some(libc::ECANCELED),
                             };
                             hev("h.hready", oi, ok as u64);
@@ -705,6 +721,7 @@ fn run_case(case: &Value, rep: &mut Report, trace_out: &mut Vec<String>, settle_
                 hev("h.htake", oi, 0);
                 ctx.ops[oi].cancel_requested = true;
                 let pid = ctx.ops[oi].pipe;
+                let discardable = discardable_on(&ctx, pid, oi);
                 match ctx.ops[oi].key.take().expect("harness: cancel without key") {
                     AnyKey::Read(k) => {
                         if let Some(BufResult(res, op)) = d.cancel(k) {
@@ -712,7 +729,7 @@ fn run_case(case: &Value, rep: &mut Report, trace_out: &mut Vec<String>, settle_
                             let mut buf = op.into_inner();
                             buf.taken = true;
                             let ok = match &res {
-                                Ok(n) => take_pending(&mut ctx.pipes, pid, &raw_prefix(&buf, *n)),
+                                Ok(n) => take_pending(&mut ctx.pipes, pid, &raw_prefix(&buf, *n), discardable),
                                 Err(e) => e.raw_os_error() == Some(libc::ECANCELED),
                             };
                             hev("h.hready", oi, ok as u64);
